@@ -1051,7 +1051,7 @@ client_op = st.one_of(
     st.tuples(st.just("listdir")),
     st.tuples(st.just("readfile"), st.sampled_from([0, 10, 40000, 100000, 200000])),
     st.tuples(st.just("ropen"), st.booleans(), st.sampled_from([None, None, 1, 2])),
-    st.tuples(st.just("rread"), st.sampled_from([1, 100, 32768, 50000, 100000])),
+    st.tuples(st.just("rread"), st.sampled_from([1, 100, 32768, 50000, 100000, -1, -1])),
     st.tuples(st.just("rclose")),
 )
 
